@@ -105,14 +105,176 @@ def rename_locals(module: Module, suffix: str = '_rn') -> str:
   return ast.unparse(new) + '\n'
 
 
+class _AugExpand(ast.NodeTransformer):
+  """x += e  ->  x = x + e  for plain names and numeric-looking right-hand sides (never list displays: list += mutates in place)."""
+  OPS = (ast.Add, ast.Sub, ast.Mult)
+
+  def visit_AugAssign(self, node):
+    if isinstance(node.target, ast.Name) and isinstance(node.op, self.OPS) and not isinstance(node.value, (ast.List, ast.ListComp, ast.Tuple, ast.Call)):
+      load = ast.Name(id=node.target.id, ctx=ast.Load())
+      return ast.copy_location(ast.Assign(targets=[node.target], value=ast.BinOp(left=load, op=node.op, right=node.value)), node)
+    return node
+
+
+class _Noise(ast.NodeTransformer):
+  """A no-op statement at the start of every function body and of every loop body."""
+
+  def _fn(self, node):
+    self.generic_visit(node)
+    i = 1 if (node.body and isinstance(node.body[0], ast.Expr) and isinstance(node.body[0].value, ast.Constant) and isinstance(node.body[0].value.value, str)) else 0
+    node.body.insert(i, ast.parse('_fjsa_noise = None').body[0])
+    return node
+  visit_FunctionDef = _fn
+
+  def visit_For(self, node):
+    self.generic_visit(node)
+    node.body.insert(0, ast.Pass())
+    return node
+  visit_While = visit_For
+
+
+class _TempReturn(ast.NodeTransformer):
+  """return <call>  ->  _fjsa_ret = <call>; return _fjsa_ret  (not inside lambdas / generators' bare returns)."""
+
+  def visit_Lambda(self, node):
+    return node
+
+  def _body(self, stmts):
+    out = []
+    for st in stmts:
+      if isinstance(st, ast.Return) and isinstance(st.value, ast.Call):
+        out.append(ast.copy_location(ast.Assign(targets=[ast.Name(id='_fjsa_ret', ctx=ast.Store())], value=st.value), st))
+        out.append(ast.copy_location(ast.Return(value=ast.Name(id='_fjsa_ret', ctx=ast.Load())), st))
+      else:
+        out.append(st)
+    return out
+
+  def generic_visit(self, node):
+    super().generic_visit(node)
+    for f in ('body', 'orelse', 'finalbody'):
+      v = getattr(node, f, None)
+      if isinstance(v, list) and v and isinstance(v[0], ast.stmt):
+        setattr(node, f, self._body(v))
+    return node
+
+
+class _KwReverse(ast.NodeTransformer):
+
+  def visit_Call(self, node):
+    self.generic_visit(node)
+    if len(node.keywords) > 1 and all(k.arg for k in node.keywords):
+      node.keywords = list(reversed(node.keywords))
+    return node
+
+
+class _IfNot(ast.NodeTransformer):
+  """if c: A else: B  ->  if not c: B else: A  (plain else only, no elif chains)."""
+
+  def visit_If(self, node):
+    self.generic_visit(node)
+    if node.orelse and not (len(node.orelse) == 1 and isinstance(node.orelse[0], ast.If)):
+      node.test = ast.UnaryOp(op=ast.Not(), operand=node.test)
+      node.body, node.orelse = node.orelse, node.body
+    return node
+
+  def visit_IfExp(self, node):
+    self.generic_visit(node)
+    node.test = ast.UnaryOp(op=ast.Not(), operand=node.test)
+    node.body, node.orelse = node.orelse, node.body
+    return node
+
+
+class _CmpFlip(ast.NodeTransformer):
+  FLIP = {ast.Lt: ast.Gt, ast.Gt: ast.Lt, ast.LtE: ast.GtE, ast.GtE: ast.LtE}
+
+  def visit_Compare(self, node):
+    self.generic_visit(node)
+    if len(node.ops) == 1 and type(node.ops[0]) in self.FLIP:
+      return ast.copy_location(ast.Compare(left=node.comparators[0], ops=[self.FLIP[type(node.ops[0])]()], comparators=[node.left]), node)
+    return node
+
+
+def alias_rename(module: Module, suffix: str = '_m') -> str:
+  """Module-level import aliases are renamed (from a import b -> from a import b as b_m) with all their uses."""
+  if module.relpath.endswith('__init__.py'):
+    return module.src
+  fresh = Module(module.name, module.path, module.relpath, module.src)
+  names = {}
+  for name, bs in fresh.scope.bindings.items():
+    if all(b.kind in ('import-module', 'import-symbol') for b in bs) and '.' not in name and not name.startswith('_'):
+      names[name] = name + suffix
+  # `import a.b.c` binds `a`: leave those alone
+  for st in fresh.tree.body:
+    if isinstance(st, ast.Import):
+      for al in st.names:
+        if al.asname is None:
+          names.pop(al.name.split('.')[0], None)
+  if not names:
+    return module.src
+
+  class R(ast.NodeTransformer):
+
+    def __init__(self):
+      self.stack = [fresh.scope]
+
+    def generic_visit(self, node):
+      sc = fresh.scope_of_node.get(node)
+      pushed = False
+      if sc is not None and sc is not self.stack[-1] and node is not fresh.tree:
+        self.stack.append(sc)
+        pushed = True
+      out = super().generic_visit(node)
+      if pushed:
+        self.stack.pop()
+      return out
+
+    def visit_Name(self, node):
+      if node.id in names and self.stack[-1].lookup_scope(node.id) is fresh.scope:
+        return ast.copy_location(ast.Name(id=names[node.id], ctx=node.ctx), node)
+      return node
+
+    def visit_ImportFrom(self, node):
+      if fresh.scope_of_node.get(node) in (None, fresh.scope) and self.stack[-1] is fresh.scope:
+        for al in node.names:
+          bound = al.asname or al.name
+          if bound in names:
+            al.asname = names[bound]
+      return node
+
+    def visit_Import(self, node):
+      if self.stack[-1] is fresh.scope:
+        for al in node.names:
+          bound = al.asname or al.name
+          if al.asname and bound in names:
+            al.asname = names[bound]
+      return node
+
+  new = R().visit(fresh.tree)
+  ast.fix_missing_locations(new)
+  return ast.unparse(new) + '\n'
+
+
+SIMPLE = {'aug-expand': _AugExpand, 'noise': _Noise, 'temp-return': _TempReturn, 'kw-reverse': _KwReverse, 'if-not': _IfNot,
+          'cmp-flip': _CmpFlip}
+KINDS = ['reformat', 'rename-locals', 'alias-rename'] + sorted(SIMPLE)
+
+
 def transform_repo(kind: str, repo_root: str, dst: str):
   copy_tree(repo_root, dst)
+  from fjsa import canon
+  canon.LEVEL = 0   # the transformations work on the program as written, not on its canonical form
   repo = Repo(dst)
   for m in repo.modules.values():
     if kind == 'reformat':
       new = reformat(m.src)
     elif kind == 'rename-locals':
       new = rename_locals(m)
+    elif kind == 'alias-rename':
+      new = alias_rename(m)
+    elif kind in SIMPLE:
+      tree = SIMPLE[kind]().visit(ast.parse(m.src))
+      ast.fix_missing_locations(tree)
+      new = ast.unparse(tree) + '\n'
     else:
       raise ValueError(kind)
     compile(new, m.path, 'exec')
@@ -123,6 +285,11 @@ def transform_repo(kind: str, repo_root: str, dst: str):
 def main():
   kind = sys.argv[1] if len(sys.argv) > 1 else 'reformat'
   props = sys.argv[2:] or [f'C{i:02d}' for i in range(1, 21)]
+  if kind == 'all':
+    rc = 0
+    for k in KINDS:
+      rc |= subprocess.run([sys.executable, '-W', 'ignore', '-m', 'fjsa.selftest.neutral', k] + sys.argv[2:], cwd=VERIF).returncode
+    sys.exit(rc)
   scratch = tempfile.mkdtemp(prefix='fjsa-neutral-', dir=_scratch_base())
   bad = 0
   try:
